@@ -52,13 +52,20 @@ var c02Opts = []c02Opt{{false, false}, {true, false}, {false, true}, {true, true
 func (o c02Opt) String() string { return fmt.Sprintf("multiline=%v,invalidindents=%v", o.ml, o.ii) }
 
 func c02Decode(data []byte, o c02Opt) (doc *gedcom.Document, err error, pi *fw.PanicInfo) {
-	pi = fw.Try(func() {
+	// under fw.Guard: a decode that is parked for ever is reported like a panic
+	// (class "does not return") instead of stalling the worker
+	var d1 *gedcom.Document
+	var e1 error
+	p, parked := fw.Guard(func() {
 		d := gedcom.NewDecoder(bytes.NewReader(data))
 		d.AllowMultiLine = o.ml
 		d.AllowInvalidIndents = o.ii
-		doc, err = d.Decode()
+		d1, e1 = d.Decode()
 	})
-	return
+	if parked != "" {
+		return nil, nil, &fw.PanicInfo{Class: "decode does not return (every goroutine of the library is parked)", Frame: fw.InnermostRepoFrame(parked), Msg: "Decode never returns: every goroutine of the library is parked\n" + clip(parked, 1500), InLib: true}
+	}
+	return d1, e1, p
 }
 
 func c02Run(c *fw.Ctx, i int) {
